@@ -11,5 +11,7 @@ def writtenOnQueryPath : List String := []
 def classLevelMutable : List String := []
 /-- functions with a mutable default argument -/
 def mutableDefaults : List String := []
+/-- module-level instances of module-defined classes referred to by code reachable from query() -/
+def sharedInstancesUsed : List String := ["float_num_handler"]
 
 end Rbql.Generated
